@@ -386,7 +386,7 @@ def get_labels_table(data, tree, clusters=None):
 def create_main_run_output(cluster_file, out_file, results):
     for chain_result in results.values():
         if cluster_file is not None:
-            chain_result["clusters"] = pd.read_csv(cluster_file, sep="\t")[
+            chain_result["clusters"] = pd.read_csv(cluster_file, sep="\t", converters={"mutation_id": str})[
                 ["mutation_id", "cluster_id"]
             ].drop_duplicates()
     with gzip.GzipFile(out_file, mode="wb") as fh:
